@@ -3,7 +3,8 @@ import itertools
 import json
 
 from . import convfam as F
-from ..engine import Harness
+from ..engine import Harness, Direct
+from . import tokfam
 
 ID = "C01"
 setup = F.setup
@@ -38,6 +39,7 @@ META = {
     "assumptions": ["graph object filled as read_graph fills it (tags as decimal renderings)", "GAF reader stub yields "
                     "Alignment objects (parse_gaf_line is C16)", "StageTimer/logger no-ops", "print/open write to the model FS"],
 }
+META["explanation"] += '  tokens/conversion.py: every re.split/re.findall applied to a path column in conversion.py is decided as a language by z3 against the language of oriented steps (vp/props/tokfam.py).'
 
 LEN = {"s0": "l0", "s1": "l1", "s2": "l2", "a0": "a0", "a1": "a1", "b0": "b0", "c0": "c0", "c1": "c1"}
 SIX = ["s0", "s1", "s2", "a0", "a1", "b0"]
@@ -111,6 +113,7 @@ def harnesses(tier):
     for n in ((2, 3, 4) if tier == "quick" else (2, 3, 4, 5, 6)):
         hs.append({"id": "lemma/search_intervals/%d" % n, "params": {"kind": "search", "n": n}, "timeout": 300 if n < 5 else 1200})
     hs.append({"id": "lemma/merge_nodes", "params": {"kind": "merge"}, "timeout": 120})
+    hs.append(tokfam.harness("C01", "gaftools/conversion.py"))
     return hs
 
 
@@ -120,6 +123,8 @@ def chain_pre(walk):
 
 
 def build(params, which="C01"):
+    if params.get("kind") == "tokens":
+        return Direct(lambda: tokfam.run(params))
     kind = params["kind"]
     if kind == "chain":
         walk = parse_walk(params["walk"])
@@ -213,6 +218,8 @@ def build(params, which="C01"):
 
 
 def replay(params, model, wd, which="C01"):
+    if params.get("kind") == "tokens":
+        return tokfam.replay(params, model, wd)
     kind = params["kind"]
     a = model["args"]
     if kind in ("search", "merge"):
